@@ -140,6 +140,7 @@ type WorkerResult struct {
 	QUnknown     int                    `json:"q_unknown"`
 	QErrors      int                    `json:"q_errors"`
 	SolverS      float64                `json:"solver_s"`
+	ModelS       float64                `json:"solver_get_value_s"`
 	WallS        float64                `json:"wall_s"`
 	LoadS        float64                `json:"load_s"`
 	Funcs        map[string]int         `json:"functions_executed"`
@@ -186,7 +187,7 @@ func cmdWorker(args []string) int {
 	harness := fs.String("harness", "", "harness function name")
 	out := fs.String("out", "", "result json")
 	tier := fs.String("tier", "quick", "tier")
-	solverKind := fs.String("solver", "z3", "z3 | z3-new | cvc5")
+	solverKind := fs.String("solver", "z3-new", "z3 | z3-new | cvc5")
 	qTimeout := fs.Int("qtimeout", 10000, "per-query timeout (ms)")
 	trace := fs.Bool("trace", false, "trace instructions")
 	smtlog := fs.String("smtlog", "", "write solver input here")
@@ -307,7 +308,8 @@ func runWorker(res *WorkerResult, repo, prop, harness, tier, solverKind string, 
 	res.ModelHits = e.ModelHits
 	res.Queries = solver.Queries
 	res.QSat, res.QUnsat, res.QUnknown, res.QErrors = solver.NSat, solver.NUnsat, solver.NUnknown, solver.NErrors
-	res.SolverS = solver.SolveTime.Seconds()
+	res.SolverS = solver.SolveTime.Seconds() + solver.ModelTime.Seconds()
+	res.ModelS = solver.ModelTime.Seconds()
 	res.Funcs = map[string]int{}
 	repoMod := "github.com/anz-bank/sysl/"
 	for name, n := range e.FuncsHit {
@@ -595,7 +597,7 @@ func cmdRun(args []string) int {
 	tier := fs.String("tier", "quick", "quick | thorough")
 	only := fs.String("only", "", "run only harnesses whose name contains this")
 	jobs := fs.Int("j", 0, "parallel workers")
-	solverKind := fs.String("solver", "z3", "solver")
+	solverKind := fs.String("solver", "z3-new", "solver")
 	noReplay := fs.Bool("noreplay", false, "skip native replay (candidates are then not reported as violations)")
 	keep := fs.Bool("keep", false, "keep worker outputs")
 	budget := fs.Duration("budget", 0, "wall budget per worker (default 5m quick, 50m thorough)")
